@@ -462,6 +462,23 @@ def _mr(x):
     return np.inf if x is None else x
 
 
+def _kw(a, *names, **conv):
+    """Keyword arguments only for what the record specifies (and, for flags, only when they differ from the documented
+    default): the library's own default values are code under test too -- a default `overwrite=False` silently turned
+    into True must be seen."""
+    out = {}
+    for n in names:
+        v = a.get(n)
+        if v is None or v is False and n == "overwrite":
+            continue
+        if n in ("ortho_l", "ortho_r") and v is True:
+            continue
+        if n == "threshold" and v == 0:
+            continue
+        out[n] = conv[n](v) if n in conv else v
+    return out
+
+
 def is_vec(m):
     return all(c == 1 for c in m[2])
 
@@ -664,7 +681,7 @@ def _tensordot():
 
     def execute(run, rec, A, g):
         a = rec["args"]
-        return A["self"].tensordot(A["other"], a["num_axes"], mode=a.get("mode", "last-first"), overwrite=bool(a.get("overwrite")))
+        return A["self"].tensordot(A["other"], a["num_axes"], **_kw(a, "mode", "overwrite"))
     return choose, execute
 
 
@@ -685,7 +702,7 @@ def _rank_tensordot():
             mat = g.standard_normal((t.ranks[-1], a["q"]))
         else:
             mat = g.standard_normal((a["q"], t.ranks[0]))
-        return t.rank_tensordot(mat, mode=a["mode"], overwrite=bool(a.get("overwrite")))
+        return t.rank_tensordot(mat, **_kw(a, "mode", "overwrite"))
     return choose, execute
 
 
@@ -701,7 +718,7 @@ def _concatenate():
         return {"op": "concatenate", "in": {"self": a, "other": b}, "dest": [] if ow else ctx.dest(1), "args": {"overwrite": ow}}
 
     def execute(run, rec, A, g):
-        return A["self"].concatenate(A["other"], overwrite=bool(rec["args"].get("overwrite")))
+        return A["self"].concatenate(A["other"], **_kw(rec["args"], "overwrite"))
     return choose, execute
 
 
@@ -724,7 +741,7 @@ def _concatenate_list():
             r2 = 1 if i == a["n"] - 1 else 2
             cores.append(g.standard_normal((r, a["m"], 1, r2)))
             r = r2
-        return t.concatenate(cores, overwrite=bool(a.get("overwrite")))
+        return t.concatenate(cores, **_kw(a, "overwrite"))
     return choose, execute
 
 
@@ -747,11 +764,11 @@ def _unary_ow(name, call, p_ow=0.35, extra_args=None, pred=lambda m: True):
     return _f
 
 
-_unary_ow("transpose", lambda t, a: t.transpose(cores=a.get("cores"), conjugate=bool(a.get("conjugate")), overwrite=bool(a.get("overwrite"))),
+_unary_ow("transpose", lambda t, a: t.transpose(**_kw(dict(a, conjugate=a.get("conjugate") or None), "cores", "conjugate", "overwrite")),
           extra_args=lambda ctx, m: {"conjugate": ctx.rnd.random() < 0.5,
                                      "cores": (None if ctx.rnd.random() < 0.6 else sorted(ctx.rnd.sample(range(m[0]), ctx.rnd.randint(1, m[0]))))})
-_unary_ow("conj", lambda t, a: t.conj(overwrite=bool(a.get("overwrite"))))
-_unary_ow("rank_transpose", lambda t, a: t.rank_transpose(overwrite=bool(a.get("overwrite"))))
+_unary_ow("conj", lambda t, a: t.conj(**_kw(a, "overwrite")))
+_unary_ow("rank_transpose", lambda t, a: t.rank_transpose(**_kw(a, "overwrite")))
 
 
 @op("misuse", roles=("self", "other"), inplace=lambda rec: "self" if rec["args"].get("overwrite") else None, weight=0.8)
@@ -931,7 +948,7 @@ def _tt2qtt():
         t = A["self"]
         if len(a["rows"]) != t.order:
             raise Skip()
-        return t.tt2qtt(a["rows"], a["cols"], threshold=a.get("threshold", 0))
+        return t.tt2qtt(a["rows"], a["cols"], **_kw(a, "threshold"))
     return choose, execute
 
 
@@ -984,8 +1001,7 @@ def _svd():
         a = rec["args"]
         t = A["self"]
         _need(all(c == 1 for c in t.col_dims) and 1 <= a["index"] <= t.order - 1)
-        return t.svd(a["index"], threshold=a.get("threshold", 0), max_rank=_mr(a.get("max_rank")),
-                     ortho_l=a.get("ortho_l", True), ortho_r=a.get("ortho_r", True), overwrite=bool(a.get("overwrite")))
+        return t.svd(a["index"], **_kw(a, "threshold", "max_rank", "ortho_l", "ortho_r", "overwrite"))
     return _svd_choose("svd"), execute
 
 
@@ -995,8 +1011,7 @@ def _pinv():
         a = rec["args"]
         t = A["self"]
         _need(all(c == 1 for c in t.col_dims) and 1 <= a["index"] <= t.order - 1)
-        return t.pinv(a["index"], threshold=a.get("threshold", 0), ortho_l=a.get("ortho_l", True),
-                      ortho_r=a.get("ortho_r", True), overwrite=bool(a.get("overwrite")))
+        return t.pinv(a["index"], **_kw(a, "threshold", "ortho_l", "ortho_r", "overwrite"))
     return _svd_choose("pinv"), execute
 
 
